@@ -14,6 +14,12 @@ Keys are `/`-joined segment indices (`0`, `0/2`, …), `-` is the empty prefix.
   list <pre> [off=<key>] · listd <pre>
   reopen                                      cold metadata cache
   via-b <op>                                  the op through a second, freshly opened wrapper instance over the same backend
+  mabort <key> <n1,n2,…> <seed> · mdrop …     multipart: parts, then `abort` / the upload is dropped without `complete`
+  dels <key>,<key>,…                          one `delete_stream` over several locations → `ok [<answer>,…]` in input order
+  entry points of `ObjectStoreExt` (same model call, the convenience spelling on the implementation):
+    put-x <key> <size> <seed> = put · head <key> = head · getr <key> <s> <e> = get_range (answer: `ok data=…`)
+    copy-x / copy-ine <src> <dst> = copy / copy_if_not_exists · ren-x / ren-ine <src> <dst> = rename / rename_if_not_exists
+  coverage                                    `cov <tag>=<count> …`: which branches of the model the run visited (all tags, zeros included)
 Answer: `<wrapper model answer> || <reference model answer>`; tokens as first-occurrence ordinals
 `T<n>` (per side), times raw `@<n>` (the harness ranks them), data as `<len>:<fnv64>`.
 -/
@@ -97,6 +103,7 @@ structure St where
   rs : Side := {}
   calls : Nat := 0
   refTok : Nat := 0
+  cov : List (String × Nat) := []
 
 def parseMode (s : Side) (m : String) : Option PutMode :=
   if m = "ow" then some .overwrite
@@ -179,16 +186,168 @@ def parseCall (s : Side) (timeOf : Path → Option Nat) : List String → Option
   | ["listd", p] => do let p ← parseKey p; pure (.listDelim p, false)
   | _ => none
 
+/-- answer style: 0 = full, 1 = head (metadata only), 2 = bytes only (`get_range`) -/
+abbrev Style := Nat
+
+/-- the `ObjectStoreExt` spellings, rewritten to the `*_opts` call they are defined as -/
+def normalize : List String → List String × Option Style
+  | ["put-x", k, size, seed] => (["put", k, "ow", size, seed], none)
+  | ["head", k] => (["get", k, "head"], none)
+  | ["getr", k, s, e] => (["get", k, s!"r=b:{s}:{e}"], some 2)
+  | ["copy-x", a, b] => (["copy", a, b, "ow"], none)
+  | ["copy-ine", a, b] => (["copy", a, b, "cr"], none)
+  | ["ren-x", a, b] => (["ren", a, b, "ow"], none)
+  | ["ren-ine", a, b] => (["ren", a, b, "cr"], none)
+  | ws => (ws, none)
+
+def showOutStyle (s : Side) (style : Style) (o : Out) : Side × String :=
+  match style, o with
+  | 2, .got _ _ data => (s, s!"ok data={showData data}")
+  | 1, o => showOut s true o
+  | _, o => showOut s false o
+
+/-! ### coverage of the model's branches under the correspondence run -/
+
+def bump (cov : List (String × Nat)) (tag : String) : List (String × Nat) :=
+  match cov.find? (·.1 == tag) with
+  | some _ => cov.map (fun p => if p.1 == tag then (p.1, p.2 + 1) else p)
+  | none => cov ++ [(tag, 1)]
+
+def outKind : Out → String
+  | .err .notFound => "notfound" | .err .exists => "exists" | .err .precond => "precond"
+  | .err .notModified => "notmodified" | .err .generic => "generic" | _ => "ok"
+
+def pa (b : Bool) : String := if b then "present" else "absent"
+def cnt (n : Nat) : String := if n = 0 then "0" else if n = 1 then "1" else "2+"
+
+def tri (c : Option Bool) : String := match c with | none => "-" | some true => "P" | some false => "F"
+
+/-- the row of the precondition decision table a `get` falls into, against the commit a cold read resolves -/
+def precondRow (o : GetOpts) (cur : Option Tok) (lm : Option Nat) : String :=
+  tri (o.ifMatch.map (fun m => tagMatches m cur)) ++ tri (o.ifNoneMatch.map (fun m => !tagMatches m cur)) ++
+  tri (o.ifUnmodifiedSince.bind (fun d => lm.map (fun t => decide (t ≤ d)))) ++
+  tri (o.ifModifiedSince.bind (fun d => lm.map (fun t => decide (t > d))))
+
+def rangeTag (r : Option Range) (size : Nat) : String :=
+  match r with
+  | none => "none"
+  | some r =>
+      let kind := match r with | .bounded .. => "bounded" | .offset _ => "offset" | .suffix _ => "suffix"
+      let res := match r, asRange r size with
+        | _, .error _ => "err"
+        | .bounded _ e, .ok _ => if e > size then "clipped" else "ok"
+        | .suffix n, .ok _ => if n > size then "clipped" else "ok"
+        | _, .ok _ => "ok"
+      kind ++ ":" ++ res
+
+def docOf (be : Backend) (k : Path) : Option Doc :=
+  match aget be (.mt k) with
+  | some ⟨.doc d, _⟩ => some d
+  | _ => none
+
+def covTags (w : W) (c : Call) (out : Out) : List String :=
+  let present (k : Path) := (readCold w.be k).isSome
+  match c with
+  | .put k mode _ =>
+      let m := match mode with | .overwrite => "ow" | .create => "cr" | .update none _ => "up-none" | .update _ true => "up-version" | .update _ false => "up"
+      [s!"put:{m}:{pa (present k)}:{outKind out}"]
+  | .mput k parts => [s!"mput:{pa (present k)}:parts{cnt parts.length}"]
+  | .get k o =>
+      let d := docOf w.be k
+      let cache := match aget w.cache k, d with
+        | none, _ => "miss"
+        | some c, some d => if c = d then "hit" else "stale"
+        | some _, none => "stale"
+      match d with
+      | none => [s!"get:absent:{outKind out}", s!"get:cache:{cache}"]
+      | some d =>
+          [s!"get:row:{precondRow o d.etag (logicalLM d)}", s!"get:out:{outKind out}", s!"get:cache:{cache}",
+           s!"get:range:{rangeTag o.range d.size}", if o.head then "get:head" else "get:body"]
+  | .getRanges k rs =>
+      let shape := if rs.isEmpty then "empty" else
+        match docOf w.be k with
+        | some d => (match validateRanges d.size rs with | .ok _ => "valid" | .error _ => "invalid")
+        | none => "any"
+      [s!"ranges:{shape}:{pa (present k)}:{outKind out}"]
+  | .delete k => [s!"del:{pa (present k)}"]
+  | .copy a b cr => [s!"copy:{if cr then "cr" else "ow"}:src-{pa (present a)}:dst-{pa (present b)}:{if a = b then "self" else "other"}"]
+  | .rename a b cr => [s!"ren:{if cr then "cr" else "ow"}:src-{pa (present a)}:dst-{pa (present b)}:{if a = b then "self" else "other"}"]
+  | .list _ off => [s!"list:{if off.isSome then "off" else "nooff"}:n{match out with | .listed ms => cnt ms.length | _ => "err"}"]
+  | .listDelim _ =>
+      [match out with
+       | .listedDelim ps ms => s!"listd:prefixes{cnt ps.length}:objects{cnt ms.length}"
+       | _ => "listd:err"]
+
+def opKind : Call → String
+  | .put .. => "put" | .mput .. => "mput" | .get .. => "get" | .getRanges .. => "ranges" | .delete _ => "del"
+  | .copy .. => "copy" | .rename .. => "ren" | .list .. => "list" | .listDelim _ => "listd"
+
+/-- the tags a thorough run is expected to visit (printed with their counts, zeros included) -/
+def allTags : List String :=
+  let t3 := ["-", "P", "F"]
+  let rows := t3.flatMap fun a => t3.flatMap fun b => t3.flatMap fun c => t3.map fun d => s!"get:row:{a}{b}{c}{d}"
+  let pas := ["present", "absent"]
+  rows ++
+  ["get:out:ok", "get:out:precond", "get:out:notmodified", "get:out:generic", "get:absent:notfound",
+   "get:cache:hit", "get:cache:miss", "get:cache:stale", "get:head", "get:body",
+   "get:range:none", "get:range:bounded:ok", "get:range:bounded:clipped", "get:range:bounded:err",
+   "get:range:offset:ok", "get:range:offset:err", "get:range:suffix:ok", "get:range:suffix:clipped",
+   "put:ow:present:ok", "put:ow:absent:ok", "put:cr:present:exists", "put:cr:absent:ok",
+   "put:up:present:ok", "put:up:present:precond", "put:up:absent:precond", "put:up-none:present:precond",
+   "put:up-none:absent:precond", "put:up-version:present:precond", "put:up-version:absent:precond",
+   "ranges:empty:present:ok", "ranges:empty:absent:ok", "ranges:valid:present:ok", "ranges:invalid:present:generic",
+   "ranges:any:absent:notfound", "del:present", "del:absent",
+   "gc:deleted0", "gc:deleted1", "gc:deleted2+", "gccrash:cut", "gccrash:complete", "abort", "legacy", "reopen", "via-b",
+   "dels:n0", "dels:n1", "dels:n2+"] ++
+  (["put", "mput", "del", "copy", "ren"].flatMap fun o => ["0", "mid", "full"].map fun c => s!"crash:{o}:cut-{c}") ++
+  (pas.flatMap fun k => ["0", "1", "2+"].map fun n => s!"mput:{k}:parts{n}") ++
+  (["copy", "ren"].flatMap fun o => ["ow", "cr"].flatMap fun m => pas.flatMap fun a => pas.flatMap fun b =>
+    ["self", "other"].filterMap fun sf =>
+      -- a self copy / rename has one key: source and target presence coincide
+      if sf = "self" ∧ a ≠ b then none else some s!"{o}:{m}:src-{a}:dst-{b}:{sf}") ++
+  (["off", "nooff"].flatMap fun o => ["0", "1", "2+"].map fun n => s!"list:{o}:n{n}") ++
+  (["0", "1", "2+"].flatMap fun a => ["0", "1", "2+"].map fun b => s!"listd:prefixes{a}:objects{b}")
+
+def showCov (cov : List (String × Nat)) : String :=
+  let known := allTags.map (fun t => (t, ((cov.find? (·.1 == t)).map (·.2)).getD 0))
+  let extra := cov.filter (fun p => !allTags.contains p.1)
+  "cov " ++ " ".intercalate ((known ++ extra).map (fun p => s!"{p.1}={p.2}"))
+
 def wTimeOf (w : W) (k : Path) : Option Nat := (readCold w.be k).map (·.time)
 def rTimeOf (r : Ref) (k : Path) : Option Nat := (aget r k).map (·.time)
 
 def parseFlavor (f : String) : Gen.SidecarOrder.Wrapper := if f = "e" then .encrypted else .metaStore
 
+/-- one call of the alphabet (possibly `via-b`, possibly an `ObjectStoreExt` spelling) on both models -/
+def stepCall (st : St) (ws : List String) : Option (St × String) :=
+  -- `via-b <op>`: through a second, freshly opened instance B over the same backend; instance A
+  -- keeps its metadata cache (possibly stale afterwards)
+  let viaB := decide (ws.head? = some "via-b")
+  let ws := if viaB then ws.drop 1 else ws
+  let (ws, style) := normalize ws
+  match parseCall st.ws (wTimeOf st.w) ws, parseCall st.rs (rTimeOf st.r) ws with
+  | some (cw, head), some (cr, _) =>
+      let style : Style := style.getD (if head then 1 else 0)
+      let now := 3 * (st.calls + 1)
+      let (w', ow) :=
+        if viaB then
+          let r := wStep { st.w with cache := [] } now cw
+          ({ r.1 with cache := st.w.cache }, r.2)
+        else wStep st.w now cw
+      let (r', or) := refStep st.r (.foreign st.refTok) now cr
+      let (wside, sw) := showOutStyle st.ws style ow
+      let (rside, sr) := showOutStyle st.rs style or
+      let cov := (covTags (if viaB then { st.w with cache := [] } else st.w) cw ow).foldl bump st.cov
+      let cov := if viaB then bump cov "via-b" else cov
+      some ({ st with w := w', r := r', ws := wside, rs := rside, calls := st.calls + 1, refTok := st.refTok + 1, cov := cov },
+            sw ++ " || " ++ sr)
+  | _, _ => none
+
 /-- the C07 part of the protocol; `none` when the line is not one of its operations -/
 def stepC07 (st : St) (ws : List String) : Option (St × String) :=
   match ws with
-  | "reset" :: f :: _ => some ({ w := { W.init with flavor := parseFlavor f } }, "ok || ok")
-  | ["reopen"] => some ({ st with w := st.w.reopen }, "ok || ok")
+  | "reset" :: f :: _ => some ({ w := { W.init with flavor := parseFlavor f }, cov := st.cov }, "ok || ok")
+  | ["reopen"] => some ({ st with w := st.w.reopen, cov := bump st.cov "reopen" }, "ok || ok")
   | ["legacy", k, size, seed] => do
       -- a pre-0.10 object behind the wrapper's back; on the reference side a plain put
       let k ← parseKey k; let size ← size.toNat?; let seed ← seed.toNat?
@@ -196,26 +355,26 @@ def stepC07 (st : St) (ws : List String) : Option (St × String) :=
       let data := genBytes seed size
       pure ({ st with w := legacyPut st.w now k data (.put 0 data),
                       r := aset st.r k ⟨data, .foreign st.refTok, now⟩,
-                      calls := st.calls + 1, refTok := st.refTok + 1 }, "ok || ok")
-  | _ =>
-      -- `via-b <op>`: through a second, freshly opened instance B over the same backend; instance A
-      -- keeps its metadata cache (possibly stale afterwards)
-      let viaB := decide (ws.head? = some "via-b")
-      let ws := if viaB then ws.drop 1 else ws
-      match parseCall st.ws (wTimeOf st.w) ws, parseCall st.rs (rTimeOf st.r) ws with
-      | some (cw, head), some (cr, _) =>
-          let now := 3 * (st.calls + 1)
-          let (w', ow) :=
-            if viaB then
-              let r := wStep { st.w with cache := [] } now cw
-              ({ r.1 with cache := st.w.cache }, r.2)
-            else wStep st.w now cw
-          let (r', or) := refStep st.r (.foreign st.refTok) now cr
-          let (wside, sw) := showOut st.ws head ow
-          let (rside, sr) := showOut st.rs head or
-          some ({ st with w := w', r := r', ws := wside, rs := rside, calls := st.calls + 1, refTok := st.refTok + 1 },
-                sw ++ " || " ++ sr)
-      | _, _ => none
+                      calls := st.calls + 1, refTok := st.refTok + 1, cov := bump st.cov "legacy" }, "ok || ok")
+  | ["coverage"] => some (st, showCov st.cov)
+  | [op, k, sizes, seed] =>
+      if op = "mabort" ∨ op = "mdrop" then do
+        let _ ← parseKey k; let _ ← natList? sizes; let _ ← seed.toNat?
+        pure ({ st with w := abortUpload st.w, calls := st.calls + 1, cov := bump st.cov "abort" }, "ok || ok")
+      else stepCall st ws
+  | ["dels", ks] => do
+      let ks ← (if ks = "-" then some [] else (ks.splitOn ",").mapM parseKey)
+      let r := ks.foldl (fun (acc : St × List String × List String) k =>
+        let st := acc.1
+        let now := 3 * (st.calls + 1)
+        let (w', ow) := wStep st.w now (.delete k)
+        let (r', or) := refStep st.r (.foreign st.refTok) now (.delete k)
+        ({ st with w := w', r := r', calls := st.calls + 1, refTok := st.refTok + 1,
+                   cov := (covTags st.w (.delete k) ow).foldl bump st.cov },
+         acc.2.1 ++ [(showOut st.ws false ow).2], acc.2.2 ++ [(showOut st.rs false or).2])) (st, [], [])
+      pure ({ r.1 with cov := bump r.1.cov s!"dels:n{cnt ks.length}" },
+            "ok [" ++ ",".intercalate r.2.1 ++ "] || ok [" ++ ",".intercalate r.2.2 ++ "]")
+  | _ => stepCall st ws
 
 end AndaVerif.ObjStoreProto
 
@@ -226,6 +385,7 @@ open AndaVerif.ObjStore AndaVerif.Drv
   legacy <key> <size> <seed>     a pre-0.10 object written straight into the backend (data/<k>, then meta/<k> without
                                  generation), followed by a re-open of the wrapper
   crash <n> <op…>                the op is cut after its first n backend steps; restart with a cold cache → `crashed`
+  crash <n> gc                   collect_garbage dies after n of its deletions; restart with a cold cache → `crashed`
   steps <op…>                    `n=<number of backend steps of the op in the current state>`
   gc                             collect_garbage → `ok <deleted>`
   dump                           surviving backend objects, canonical: `ok m=[keys] d=[keys] g=[key:count,…]`
@@ -247,16 +407,23 @@ def firstCol (s : String) : String := (s.splitOn " || ").headD s
 def stepC08 (st : St) (ws : List String) : Option (St × String) :=
   let now := 3 * (st.calls + 1)
   match ws with
+  | ["crash", n, "gc"] => do
+      let n ← n.toNat?
+      let tag := if (gcRun st.w now).2 ≤ n then "gccrash:complete" else "gccrash:cut"
+      pure ({ st with w := gcCrashState st.w now n, calls := st.calls + 1, cov := bump st.cov tag }, "crashed")
   | "crash" :: n :: op => do
       let n ← n.toNat?
-      let (c, _) ← parseCall st.ws (wTimeOf st.w) op
-      pure ({ st with w := { (crashState st.w now c n) with nextId := st.w.nextId + 1 }, calls := st.calls + 1 }, "crashed")
+      let (c, _) ← parseCall st.ws (wTimeOf st.w) (normalize op).1
+      let len := (stepsOf st.w now c).length
+      let tag := s!"crash:{opKind c}:cut-{if n = 0 then "0" else if n < len then "mid" else "full"}"
+      pure ({ st with w := { (crashState st.w now c n) with nextId := st.w.nextId + 1 }, calls := st.calls + 1,
+                      cov := bump st.cov tag }, "crashed")
   | "steps" :: op => do
-      let (c, _) ← parseCall st.ws (wTimeOf st.w) op
+      let (c, _) ← parseCall st.ws (wTimeOf st.w) (normalize op).1
       pure (st, s!"n={(stepsOf st.w now c).length}")
   | ["gc"] =>
       let (w', n) := gcRun st.w now
-      some ({ st with w := w', calls := st.calls + 1 }, s!"ok {n}")
+      some ({ st with w := w', calls := st.calls + 1, cov := bump st.cov s!"gc:deleted{cnt n}" }, s!"ok {n}")
   | ["dump"] => some (st, dumpBackend st.w.be)
   | _ => (stepC07 st ws).map (fun r => (r.1, firstCol r.2))
 
